@@ -166,7 +166,7 @@ Definition gen_assembly_match : bool :=
                         {| d_class := s2l "A"; d_table := Some (s2l "TA"); d_idname := None; d_idtype := IdInt;
                            d_idsize := SzNone; d_style := st0; d_cols := []; d_indexes := []; d_joins := [] |}
                         {| j_kind := JRelated; j_other_class := s2l "B"; j_other_table := s2l "TB";
-                           j_inter := Some (s2l "INTER"); j_joincol := Some (s2l "JC"); j_othercol := Some (s2l "OC");
+                           j_inter := Some (s2l "INTER"); j_joincol := Some (s2l "JC"); j_othercol := Some (s2l "OC"); j_other_creates := [];
                            j_create := true |}))
   (* every column renderer: name, type, _extraSQL -- firebird enum: name, type, _extraSQL, CHECK *)
   && forallb (fun row => let '((d, is_enum), r) := row in
@@ -200,19 +200,28 @@ Definition gen_index_match : bool :=
   && forallb (fun p => str_eqb (snd p) (s2l "sqliteCreateIndexSQL")) G.index_aliases
   && Nat.eqb (List.length G.index_aliases) 5.
 
-(* ---------- 7. the name-order rule *)
+(* ---------- 7. the ownership rule of link tables *)
+Definition rule_decl (cls : string) (joins : list joindecl) : decl :=
+  {| d_class := s2l cls; d_table := Some (s2l cls); d_idname := None; d_idtype := IdInt; d_idsize := SzNone;
+     d_style := st0; d_cols := []; d_indexes := []; d_joins := joins |}.
+Definition rule_join (inter create : bool) (other : string) (tbl : string) (oc : list str) : joindecl :=
+  {| j_kind := if inter then JRelated else JMultiple; j_other_class := s2l other; j_other_table := s2l other;
+     j_inter := Some (s2l tbl); j_joincol := None; j_othercol := None; j_create := create; j_other_creates := oc |}.
 Definition gen_joins_rule_match : bool :=
-  forallb (fun row => let '((inter, create, rel), res) := row in
+  forallb (fun row => let '((inter, create, rel, osc), res) := row in
                       let '(a, b) := match rel with Lt => ("A", "B") | Eq => ("A", "A") | Gt => ("B", "A") end in
                       Bool.eqb res
-                        (creates_link
-                           {| d_class := s2l a; d_table := None; d_idname := None; d_idtype := IdInt; d_idsize := SzNone;
-                              d_style := st0; d_cols := []; d_indexes := []; d_joins := [] |}
-                           {| j_kind := if inter : bool then JRelated else JMultiple; j_other_class := s2l b;
-                              j_other_table := s2l b; j_inter := None; j_joincol := None; j_othercol := None;
-                              j_create := create |}))
+                        (creates_link (rule_decl a [])
+                           (rule_join inter create b "T1" (if osc : bool then [s2l "T1"] else [s2l "T2"]))))
           G.joins_rule_table
-  && Nat.eqb (List.length G.joins_rule_table) 12.
+  && Nat.eqb (List.length G.joins_rule_table) 24
+  (* _otherSideCreates = membership of the intermediate table among the other class's creating RelatedJoins *)
+  && forallb (fun row => let '((inter, create, same), res) := row in
+                         Bool.eqb res
+                           (mem_str (s2l "T1")
+                              (other_creates (rule_decl "B" [rule_join inter create "A" (if same : bool then "T1" else "T2") []]))))
+             G.other_side_table
+  && Nat.eqb (List.length G.other_side_table) 8.
 
 (* ---------- 8. constant type names *)
 Definition expected_const_types : list (string * string * list tok) :=
@@ -242,12 +251,16 @@ Definition gen_const_types_match : bool :=
      end) G.const_types expected_const_types.
 
 (* ---------- 9. enum: shape of the type and the converter that renders the values *)
+Definition dname (d : dialect) : string :=
+  match d with Sqlite => "sqlite" | Mysql => "mysql" | Postgres => "postgres" | Firebird => "firebird"
+          | Mssql => "mssql" | Sybase => "sybase" | Maxdb => "maxdb" end.
 Definition enum_env (d : dialect) (n : Z) : henv :=
-  let nm := match d with Mysql => "mysql" | Firebird => "firebird" | _ => "postgres" end in
+  let nm := dname d in
   [(String.append "a@" nm, HT (lit_toks d (Some (s2l "a")))); (String.append "b@" nm, HT (lit_toks d (Some (s2l "b"))));
    (String.append "NULL@" nm, HT (lit_toks d None)); ("length", HT (int_toks n)); ("dbName", HW (s2l "DBNAME"))].
 Definition enum_vals (with_none : bool) : list (option str) :=
   if with_none then [Some (s2l "a"); None] else [Some (s2l "a"); Some (s2l "b")].
+Definition check_dialects := [Postgres; Sqlite; Sybase; Mssql].
 (* the type part of the model's column: what stands between the name and _extraSQL (and after it, for firebird) *)
 Definition enum_type_ok (row : (list N * bool) * tres) : bool :=
   let '((m, wn), r) := row in
@@ -255,20 +268,23 @@ Definition enum_type_ok (row : (list N * bool) * tres) : bool :=
   if str_eqb m (s2l "_mysqlType") then
     otoks_eqb (fill_res (enum_env Mysql 1) r)
               (Some ((kw "ENUM" :: paren (enum_list Mysql (not_none_vals vs))) ++ (if has_none vs then [] else kws ["NOT"; "NULL"])))
-  else if str_eqb m (s2l "_postgresType") then
-    otoks_eqb (fill_res (enum_env Postgres 1) r) (Some (ty_n "VARCHAR" 1 ++ enum_check Postgres (s2l "DBNAME") vs))
   else if str_eqb m (s2l "_firebirdType") then
     otoks_eqb (fill_res (enum_env Firebird 1) r)
               (Some (ty_n "VARCHAR" 1 ++ [Semi] ++ enum_check Firebird (s2l "DBNAME") vs))
-  else (* _sybaseType, _mssqlType: whatever _postgresType gives *)
-    otoks_eqb (fill_res [("postgresType", HT [W (s2l "PGTYPE")])] r) (Some [W (s2l "PGTYPE")]).
-Definition conv_is_pg (d : dialect) : bool := match enum_conv d with ConvPostgres => true | _ => false end.
+  else (* _<d>Type = _checkType('<d>'): the dialect's own name *)
+    existsb (fun d => str_eqb m (s2l (String.append "_" (String.append (dname d) "Type")))
+                      && otoks_eqb (fill_res [(String.append "check@" (dname d), HT [W (s2l "CHK")])] r) (Some [W (s2l "CHK")]))
+            check_dialects.
+Definition enum_check_ok (row : (list N * bool) * tres) : bool :=
+  let '((db, wn), r) := row in
+  existsb (fun d => str_eqb db (s2l (dname d))
+                    && otoks_eqb (fill_res (enum_env d 1) r) (Some (ty_n "VARCHAR" 1 ++ enum_check d (s2l "DBNAME") (enum_vals wn))))
+          check_dialects.
 Definition gen_enum_match : bool :=
-  forallb enum_type_ok G.enum_type_table && Nat.eqb (List.length G.enum_type_table) 10
-  && str_eqb G.enum_sqlite_alias (s2l "_postgresType")
-  && conv_is_pg Sqlite && conv_is_pg Sybase && conv_is_pg Mssql && conv_is_pg Postgres
+  forallb enum_type_ok G.enum_type_table && Nat.eqb (List.length G.enum_type_table) 12
+  && forallb enum_check_ok G.enum_check_table && Nat.eqb (List.length G.enum_check_table) 8
   && match G.enum_maxdb with TRaise e => str_eqb e (s2l "TypeError") | TOk _ => false end
-  (* and the model agrees: one enum column, every dialect *)
+  (* and the model agrees: one enum column on maxdb raises *)
   && match col_segs Maxdb caps0 st0 (col0 (KEnum (enum_vals false)) false None false None) with None => true | Some _ => false end.
 
 (* ---------- the lemmas *)
